@@ -134,7 +134,7 @@ def run(ctx):
                            detail="Close admits a proposal without all three decisions (stored status not Executed/Rejected/Passed: %s, "
                                   "current_status != Passed: %s, expired: %s)" % (g1, g2, g3),
                            sample={"guards": [g1, g2, g3]})
-    ctx.floor("R03.1", "tally-changing PROPOSALS writes", n_vote, 8)
+    ctx.floor("R03.1", "tally-changing PROPOSALS writes", n_vote, 2)
     ctx.floor("R03.2", "creating PROPOSALS writes", n_prop, 2)
     check_total(ctx)
     check_table(ctx)
